@@ -40,7 +40,12 @@ PredsOn(cols) ==
     {p \in {PLit(TRUE), PLit(FALSE), Cmp("lt", A, B), Cmp("eq", A, Lit(0)),
             In(B, Range(0, 2, 1)), And(<<Cmp("gt", A, Lit(0)), Cmp("le", B, Lit(1))>>),
             Or(<<Cmp("eq", A, Lit(1)), Cmp("eq", B, Lit(0))>>),
-            Cmp("lt", C, Lit(1)), And(<<PLit(TRUE), Cmp("ge", C, B)>>), Cmp("ne", A, Lit(1))}
+            Cmp("lt", C, Lit(1)), And(<<PLit(TRUE), Cmp("ge", C, B)>>), Cmp("ne", A, Lit(1)),
+            \* predicates that fold to a constant but still name a column
+            And(<<Cmp("lt", C, Lit(1)), PLit(FALSE)>>), Or(<<Cmp("lt", C, Lit(1)), PLit(TRUE)>>),
+            Not(Or(<<PLit(TRUE), Cmp("lt", B, Lit(1))>>)),
+            \* the operands of the disjunction / conjunction above as selections of their own
+            Cmp("eq", A, Lit(1)), Cmp("eq", B, Lit(0)), Cmp("gt", A, Lit(0))}
        : ReqP(p) \subseteq cols}
 
 SortsOn(cols) ==
